@@ -977,11 +977,16 @@ def _all_idx(chunks):
     return [tuple(int(i) for i in ix) for ix in np.ndindex(*[len(c) for c in chunks])]
 
 
+DMG_STATUS = {'status_401': 401, 'status_403': 403}      # S3 only: the request itself is refused (AuthorisationFailed)
+
+
 def dmg_bytes(kind, offset, full, arr):
     """What is stored under the chunk's name after the damage (None = nothing)."""
     from katdal.chunkstore import npy_header_and_body
     if kind == 'remove':
         return None
+    if kind in DMG_STATUS:
+        return ('status', DMG_STATUS[kind])
     if kind == 'truncate':
         return full[:offset]
     if kind == 'bad_magic':
@@ -1014,8 +1019,10 @@ def dmg_py_spec(geo, vals, damages):
         sl = _chunk_slices(geo['chunks'][dm['array']], dm['idx'])
         inwin = np.zeros(miss[dm['array']].shape, bool)
         inwin[sl] = True
-        if dm['kind'] in ('bad_dtype', 'bad_shape'):
+        if dm['kind'] in ('bad_dtype', 'bad_shape') or dm['kind'] in DMG_STATUS:
             must_fail = must_fail or bool(inwin[sel[:inwin.ndim]].any())
+            if dm['kind'] in DMG_STATUS:
+                miss[dm['array']][sl] = True     # (irrelevant when the load fails; mirrors the Coq spec)
         else:
             miss[dm['array']][sl] = True
     mv = miss['correlator_data']
@@ -1102,7 +1109,9 @@ class _DmgStore:
     def apply(self, name, idx, data, full, via_s3):
         rel = self.rel(name, idx)
         if via_s3:
-            if data is None:
+            if isinstance(data, tuple):
+                self.srv.plan('/' + rel, data)
+            elif data is None:
                 self.srv.plan('/' + rel, ('status', 404))
             elif len(data) < len(full) and full.startswith(data):
                 self.srv.plan('/' + rel, ('cut', len(data)))      # whole-object Content-Length, body cut
@@ -1162,6 +1171,10 @@ def dmg_scenarios(ctx, geo, st, n_random, every_chunk):
             allc = rng.sample(allc, every_chunk)
         for name, idx in allc:
             out.append([one(name, idx)])
+    if geo.get('s3'):    # the request for one chunk is refused: the load must fail with StoreUnavailable
+        for kind in sorted(DMG_STATUS):
+            name = rng.choice(ARRAYS)
+            out.append([one(name, rng.choice(_all_idx(chunks[name])), kind)])
     for _ in range(n_random):
         r = rng.random()
         name = rng.choice(ARRAYS)
@@ -1169,7 +1182,7 @@ def dmg_scenarios(ctx, geo, st, n_random, every_chunk):
         if r < 0.5:
             out.append([one(name, idx)])
         elif r < 0.65:
-            out.append([one(name, idx, rng.choice(['bad_dtype', 'bad_shape']))])
+            out.append([one(name, idx, rng.choice(['bad_dtype', 'bad_shape'] + (sorted(DMG_STATUS) if geo.get('s3') else [])))])
         else:            # several chunks at once, different arrays or the same
             sc = [one(name, idx)]
             for _ in range(rng.randint(1, 2)):
@@ -1196,7 +1209,7 @@ def dmg_wire(geo, st, scenario, via_s3):
         arr = vals[name][sl]
         b = dmg_bytes(dm['kind'], dm['offset'], full, arr)
         files.append([ARRAYS.index(name), _chunk_starts(geo['chunks'][name], idx), want_of(DMG_DT[name], arr.shape),
-                      [] if b is None else [list(b)]])
+                      IDX['K_AuthorisationFailed'] if isinstance(b, tuple) else [] if b is None else [list(b)]])
     return [82, [3 if via_s3 else 1, chunks, win, data, files]]
 
 
@@ -1258,6 +1271,16 @@ def dmg_check(ctx, geo, st, scenario, via_s3, mout):
         if errs is not None and res[1] not in errs:
             ctx.disagree(feats + ';symptom=load_raises', case, 'raise ' + exn_label(res[1]) + ' ' + res[2],
                          [exn_label(e) for e in errs], 'load raised an exception the model does not predict', kind='tie')
+        if must_fail:
+            from katdal.chunkstore import BadChunk, StoreUnavailable
+            want = set()
+            for dmx in scenario:
+                want.add(StoreUnavailable if dmx['kind'] in DMG_STATUS else BadChunk if dmx['kind'] in ('bad_dtype', 'bad_shape') else None)
+            want.discard(None)
+            cls = classes()[res[1]] if res[1] >= 0 else None
+            if cls is None or not any(issubclass(cls, w) for w in want):
+                ctx.disagree(feats + ';symptom=wrong_failure_class', case, 'raise ' + exn_label(res[1]) + ' ' + res[2],
+                             sorted(w.__name__ for w in want), 'the load failed, but not with BadChunk / StoreUnavailable')
         if not must_fail:
             if not is_chunkstore_error(res[1]):
                 ctx.disagree(feats + ';symptom=raw_exception', case, 'raise ' + exn_label(res[1]) + ' ' + res[2], 'data_lost or a ChunkStoreError',
@@ -1267,8 +1290,8 @@ def dmg_check(ctx, geo, st, scenario, via_s3, mout):
                              'a damaged (undecodable) chunk made the load fail instead of being flagged', kind='tie')
         return 'raise'
     if must_fail:
-        ctx.disagree(feats + ';symptom=load_succeeds', case, 'load succeeded', 'raise BadChunk',
-                     'a decodable chunk of the wrong dtype/shape inside the window did not make the load fail')
+        ctx.disagree(feats + ';symptom=load_succeeds', case, 'load succeeded', 'raise BadChunk / StoreUnavailable',
+                     'a mismatched chunk / refused request inside the window did not make the load fail')
         return 'ok'
     if errs:
         ctx.disagree(feats + ';symptom=load_succeeds', case, 'load succeeded', [exn_label(e) for e in errs],
